@@ -110,6 +110,7 @@ pub fn stage_name(l: LangId) -> &'static str {
         LangId::Rise => "ops-rise",
         LangId::Fp => "ops-fp",
         LangId::Pay => "ops-pay",
+        LangId::Wide => "ops-wide",
     }
 }
 
@@ -234,6 +235,7 @@ pub fn property(tier: Tier) -> Property {
         ("ops-rise", LangId::Rise),
         ("ops-fp", LangId::Fp),
         ("ops-pay", LangId::Pay),
+        ("ops-wide", LangId::Wide),
     ];
     for (name, l) in names {
         let mut cfg = MixedCfg::for_lang(*l);
@@ -280,7 +282,7 @@ pub fn property(tier: Tier) -> Property {
         cfg.no_subst_rules = true;
         cfg.allow_extraction_subst = false;
         cfg.hist.gen.ops = Some(vec!["v", "f2", "g3", "g4", "h4", "c0", "p", "w", "lam"]);
-        cfg.hist.weights = [1, 1, 4, 3, 1, 2, 3, 1, 4, 1, 2, 5];
+        cfg.hist.weights = [1, 1, 4, 3, 1, 2, 3, 1, 4, 1, 2, 5, 3];
         stages.push(Box::new(Stage {
             name: "ops-core-wide",
             source: random(move || mixed_strategy(cfg.clone()), tier.pick(1500, 30_000)),
@@ -307,7 +309,7 @@ pub fn property(tier: Tier) -> Property {
         cfg.hist.gen.ops = Some(vec!["g4", "g5", "g6", "h4", "v", "p", "t3", "w", "lam"]);
         // no recipe that makes a wide class symmetric: two random permutations of 12 points generate a group with millions of
         // elements, which the library (by design) enumerates when it canonicalises a parent node
-        cfg.hist.weights = [3, 2, 0, 5, 1, 0, 2, 0, 0, 2, 0, 0];
+        cfg.hist.weights = [3, 2, 0, 5, 1, 0, 2, 0, 0, 2, 0, 0, 0];
         stages.push(Box::new(Stage {
             name: "ops-core-many-slots",
             source: random(move || mixed_strategy(cfg.clone()), tier.pick(1500, 30_000)),
